@@ -40,6 +40,11 @@ if rc == 0:
     res["builds"] = rc == 0
     os.rename(os.path.join(wt, dest), os.path.join(wt, dest + ".off"))
     rc, out = sh("go test -vet=off -count=1 ./...", cwd=wt)
+    if rc != 0 and "TestTimePeriodType" in out:
+        # the suite's TestTimePeriodType compares a remaining duration across a wall-clock second
+        # boundary and fails now and then on a loaded machine, with or without a patch: once more
+        res["suite_first_attempt_tail"] = out[-300:]
+        rc, out = sh("go test -vet=off -count=1 ./...", cwd=wt)
     res["suite_with_patch"] = "pass" if rc == 0 else "FAIL"
     if rc != 0:
         res["suite_tail"] = out[-600:]
